@@ -727,6 +727,11 @@ def _manual_verdict(w, step, checker):
             kwargs[n] = dict((k, w.val(i)) for k, i in v[1])
     saved = w.log
     w.log = []
+
+    def aw(x):
+        # an integrator of coroutine functions awaits what the conditions / captures return
+        return _drive(x) if inspect.iscoroutine(x) else x
+
     try:
         pre = getattr(checker, "__preconditions__")
         success = True
@@ -734,7 +739,7 @@ def _manual_verdict(w, step, checker):
             success = True
             for contract in group:
                 ck = _ck.select_condition_kwargs(contract=contract, resolved_kwargs=kwargs)
-                success = bool(contract.condition(**ck))
+                success = bool(aw(contract.condition(**ck)))
                 if not success:
                     break
             if success:
@@ -748,13 +753,13 @@ def _manual_verdict(w, step, checker):
                 old = {}
                 for sn in snaps:
                     ck = _ck.select_capture_kwargs(a_snapshot=sn, resolved_kwargs=kw2)
-                    old[sn.name] = sn.capture(**ck)
+                    old[sn.name] = aw(sn.capture(**ck))
                 kw2["OLD"] = _ck.Old(mapping=old)
             kw2["result"] = None if step["kind"] == "init" else w.val(step["body"]["ret"]["v"])
             ok = True
             for contract in posts:
                 ck = _ck.select_condition_kwargs(contract=contract, resolved_kwargs=kw2)
-                if not contract.condition(**ck):
+                if not aw(contract.condition(**ck)):
                     ok = False
                     break
             res["post"] = ok
